@@ -88,7 +88,21 @@ where
                 None => Err(OperationError::BacklinkMissing),
             }
         } else {
-            Ok(())
+            // A prune point lies ahead of everything we already hold of this log. Accepting a
+            // pruning operation at or below the latest known sequence number would bring back
+            // entries of a prefix which a later prune point has removed already.
+            match past_header {
+                Some(past_header) if past_header.verifying_key != header.verifying_key => {
+                    Err(OperationError::TooManyAuthors)
+                }
+                Some(past_header) if header.seq_num <= past_header.seq_num => {
+                    Err(OperationError::SeqNumNonIncremental(
+                        past_header.seq_num.saturating_add(1),
+                        header.seq_num,
+                    ))
+                }
+                _ => Ok(()),
+            }
         }
     } else {
         // Operation is at the beginning of log but we've already progressed and assume a strictly
